@@ -289,3 +289,25 @@ Definition wf_tbl (T:tbl) : bool :=
   forallb (fun c => sub_names (k_cols c) (akeys (tb_cols T))) (tb_cons T) && sub_names (tb_pk T) (akeys (tb_cols T))
   && negb (has_dup (map k_name (tb_cons T))).
 Definition specok (i:input10) : bool := match edit_all (j_ops i) (j_tbl i) with BOk _ => true | BErr _ => false end.
+
+(* ------------------------------------------------------------------ the class of the main theorem *)
+(* each column's type is altered at most once (a second conversion would stack a second CAST, and "converted if its type was
+   changed" then has no single reading); constraints added by the batch are not primary keys *)
+Fixpoint types_once (seen:list key) (ops:list batch_op) : bool :=
+  match ops with
+  | [] => true
+  | OAlterColumn k a :: r =>
+      match al_type a with
+      | Some _ => negb (mem_name k seen) && types_once (k :: seen) r
+      | None => types_once seen r
+      end
+  | _ :: r => types_once seen r
+  end.
+Definition in_class2 (o:batch_op) : bool :=
+  in_class o && match o with OAddConstraint c => negb (is_primary c) | _ => true end.
+(* a reflected table: column keys are the column names, all different; an (unnamed or named) primary key has columns *)
+Definition wf_tbl2 (T:tbl) : bool :=
+  wf_tbl T && negb (has_dup (akeys (tb_cols T))) && forallb (fun p => name_eqb (c_name (snd p)) (fst p)) (tb_cols T)
+  && forallb con_visible (tb_cons T).
+Definition inclass_C10 (i:input10) : bool :=
+  j_always i && wf_tbl2 (j_tbl i) && forallb in_class2 (j_ops i) && types_once [] (j_ops i) && specok i.
